@@ -135,7 +135,10 @@ def read_plan(rng, n, ch, ty):
                 L.append(("r @ %s f %d" % (t, k), None))
             else:
                 L.append(("r @ %s i %d" % (t, k * ch), None))
-    return [l for (l, _) in L]
+    # always: the end of the stream reached by SEEK_SET and by SEEK_END, the last frame, the last packet boundary
+    fixed = ["seek @ %d 0" % F, "r @ %s f 1" % ty, "seek @ 0 2", "seek @ %d 0" % max(F - 1, 0), "r @ s32 f 2",
+             "seek @ %d 0" % (max(F - 1, 0) // FPB * FPB), "r @ %s f 3" % ty]
+    return [l for (l, _) in L] + fixed
 
 
 def make_jobs(ctx, njobs):
@@ -147,9 +150,16 @@ def make_jobs(ctx, njobs):
     while len(jobs) < njobs:
         bits, ch = combos[k % len(combos)]
         n = LENGTHS[k % len(LENGTHS)] if rng.random() < 0.8 else rng.randrange(0, 9000)
+        directed = None
+        if k < 3:
+            # directed: whole packets whose BER bytes fill the pakt chunk exactly (no padding, so the table has no extra zero entry and
+            # frames = entries * 4096): 2 x 2 bytes, 4 x 1 byte (all-zero packets are a few bytes), 4 x 3 bytes
+            bits, ch, n, directed = [(16, 1, 2 * FPB, "quiet"), (24, 1, 4 * FPB, "zero"), (16, 2, 4 * FPB, "noise")][k]
         if n * ch > 34000:
             n = rng.choice([0, 1, 2, 100, FPB - 1, FPB, FPB + 1]) if ch <= 8 else 100
         cont = CONTENTS[(k // 3) % len(CONTENTS)] if rng.random() < 0.7 else rng.choice(CONTENTS)
+        if directed:
+            cont = directed
         ty = "s16" if (bits == 16 and rng.random() < 0.6) or rng.random() < 0.15 else "s32"
         xs = content(rng, cont, n * ch, 16 if ty == "s16" else bits)
         vals = [to_caller(ty, x) for x in xs]
